@@ -130,6 +130,7 @@ func init() {
 	run.Register(&run.Spec{
 		ID: "C11", Run: func(c *run.Ctx) {
 			skipExecOnBadBytecode = true
+			NoEngines = true // code that failed verification must not run anywhere
 			user := ref.UserFuns()
 			opt := ref.GenOpt{MaxDepth: 6, PFail: 0.03, PSugar: 0.6, PBoundary: 0.1, PGroup: 0.02, UserFuns: true}
 			both := func(c *run.Ctx, o *ProgObs) { oracleC11(c, o); compareBackends(c, o) }
